@@ -355,6 +355,17 @@ def expectedSkeleton : List (String × List (String × String)) :=
        ("-", "_inbound.use_connection"), ("-", "_outbound.use_connection"), ("if", "_main_channel.fire")]),
     ("Manager.send_ping", [("-", "_reactor.seconds"), ("-", "Ping"), ("-", "_outbound.send_if_connected")]),
     ("Manager.handle_pong", [("else", "self._peer_saw_ping"), ("else/if", "_reactor.seconds"), ("else/if", "on_pong")]),
+    -- how a connection's loss reaches the Manager: `select()` → `set_manager` registers on the
+    -- one-shot `_disconnected` observer (fires even if the close came first), `connectionLost` fires it
+    ("DilatedConnectionProtocol.set_manager", [("-", "self.when_disconnected"), ("-", "?.addCallback")]),
+    ("DilatedConnectionProtocol.when_disconnected", [("-", "_disconnected.when_fired")]),
+    ("DilatedConnectionProtocol.connectionLost", [("-", "_disconnected.fire")]),
+    ("DilatedConnectionProtocol.disconnect", [("-", "transport.loseConnection")]),
+    ("Connector.consider", [("if", "_eventual_queue.eventually"), ("else", "_eventual_queue.eventually")]),
+    ("Connector.select_and_stop_remaining",
+      [("-", "_contenders.clear"), ("-", "self.stop_listeners"), ("-", "self.stop_pending_connectors"),
+       ("-", "self.stop_pending_connections"), ("-", "c.select"), ("if", "KCM"), ("if", "c.send_record"),
+       ("-", "_manager.connector_connection_made")]),
     ("TrafficTimer.begin_timing", [("-", "self.start_timer")]),
     ("TrafficTimer.signal_reconnect", [("-", "self.on_reconnect")]) ]
 
@@ -365,7 +376,7 @@ def skeletonOK : Bool :=
 
 ```
 cfg <T>            -> ok            (ping interval in ticks, T ≥ 1)
-start | please 0/1 | made | lost | stop | reconnecting | reconnect | pong <k> | pause | resume | stall <n> | adv <n>
+start | please 0/1 | made | made+lost | lost | stop | reconnecting | reconnect | pong <k> | pause | resume | stall <n> | adv <n>
                    -> [<Exception> ]<state summary>
 ```
 -/
@@ -407,6 +418,11 @@ def drvStep (d : DrvSt) (line : String) : DrvSt × String :=
   | ["start"] => doOp .start
   | ["please", b] => doOp (.please (b == "1"))
   | ["made"] => doOp .made
+  | ["made+lost"] =>
+    -- the selected connection's transport had already closed: `select()` and the loss report run in
+    -- the same flush of the eventual queue (`set_manager` → `when_disconnected()` of a fired observer)
+    let r := (step cfg d.s .made).andThen (fun s1 => step cfg s1 .lost)
+    ({ d with s := r.1 }, showRes r)
   | ["lost"] => doOp .lost
   | ["stop"] => doOp .stop
   | ["reconnecting"] => doOp .reconnecting
